@@ -44,7 +44,7 @@ def rwms_bytes(version, cfgs, nfct, nsrc, rep):
                     for j in range(nf):
                         row = []
                         for s in range(nsrc[i]):
-                            x = 1e-3 * val(rep, c % 1000, i * 4 + j, s + 1) if which == 1 else 77.0 + s
+                            x = 1e-3 * val(rep, c % 1000, i * 4 + j, s + 1) + 0.11 * ((s * 7 + j * 3 + c) % 5) if which == 1 else 77.0 + s
                             out += struct.pack('dd', x, 0.0)
                             row.append(x)
                         if which == 1:
@@ -52,7 +52,7 @@ def rwms_bytes(version, cfgs, nfct, nsrc, rep):
             else:
                 for j in range(nf):
                     sqn = [55.0 + s for s in range(nsrc[i])]
-                    lnr = [1e-3 * val(rep, c % 1000, i * 4 + j, s + 1) for s in range(nsrc[i])]
+                    lnr = [1e-3 * val(rep, c % 1000, i * 4 + j, s + 1) + 0.11 * ((s * 7 + j * 3 + c) % 5) for s in range(nsrc[i])]   # sizeable source-to-source spread
                     out += struct.pack('d' * nsrc[i], *sqn) + struct.pack('d' * nsrc[i], *lnr)
                     facs.append(lnr)
             stored[c].append(facs)
